@@ -219,10 +219,12 @@ func main() {
 	// longest first, stable
 	sort.SliceStable(jobs, func(i, j int) bool { return jobs[i].cost > jobs[j].cost })
 	r.Set("jobs", len(jobs))
-	waitLeftover := m.stageLeftover() // process runs, on their own pool next to the CPU-bound jobs
+	waitLeftover := m.stageLeftover() // process runs, on their own pools next to the CPU-bound jobs
+	waitPipeFeed := m.stagePipeFeed()
 	mon.Par(len(jobs), func(i int) { jobs[i].f() })
 	lap("jobs")
 	waitLeftover()
+	waitPipeFeed()
 	lap("run")
 
 	m.checkUniqueness()
